@@ -3559,10 +3559,12 @@ MODULES = {
     },
     "BasePartGen": {
         "files": ["partitions.rs"],
-        "types": ["BlockHeader", "BasePartition"],
+        "types": ["BlockHeader", "BasePartition", "Partition"],
         "consts": [],
         "functions": [("BasePartition", None, f) for f in ("new", "num_blocks", "index", "size", "block_size", "smaller_block",
-                                                            "pick_element", "slice", "add_block", "split_block")],
+                                                            "pick_element", "slice", "add_block", "split_block")]
+                     + [("Partition", None, f) for f in ("new", "num_blocks", "index", "size", "block_size", "smaller_block",
+                                                         "pick_element", "block_id")],
     },
     "PartitionGen": {
         "files": ["character_sets.rs", "smt_strings.rs", "errors.rs"],
